@@ -250,6 +250,35 @@ def check(case, grid=None, excl=frozenset()):
     if str(res.version) != str(g.version) or list(res.metadata.items()) != list(g.metadata.items()) or \
             list(res.column.keys()) != list(g.column.keys()):
         raise Violation('result-header', shown, 'result does not carry version/metadata/columns')
+    if '->' in text and grid is None and not limit:
+        # a filter result is a grid in its own right: filtered again, a reference is followed to a row *of the result*
+        # (a row that was not selected is not there any more), and rows added to the result do not become reachable
+        # from the source
+        want2 = fr.select(ast, want, 0)
+        try:
+            got2 = list(res.filter(text))
+        except Exception as e:  # noqa
+            raise Violation('filter-raises', shown, 'filtering the result again: %r raised %s' % (text, describe_exc(e)), (type(e).__name__,))
+        if [id(r) for r in got2] != [id(r) for r in want2]:
+            raise Violation('wrong-rows', shown, 'result of %r filtered with it again: selected ids %r, reference %r' % (
+                text, [r.get('id') for r in got2], [r.get('id') for r in want2]), ('refilter',))
+        ghost = {'id': 'zzGhostTarget', 'a': 5.0, 'b': 5.0, 'r': hszinc.Ref('zzGhostTarget')}
+        probe = {'id': 'zzProbe', 'r': hszinc.Ref('zzGhostTarget')}
+        try:
+            res.append(ghost)
+            g.append(probe)
+        except Exception:      # noqa - a grid whose columns do not admit these rows: nothing to observe
+            pass
+        else:
+            try:
+                rows3 = list(g)
+                want3 = fr.select(ast, rows3, 0)
+                got3 = list(g.filter(text))
+                if [id(r) for r in got3] != [id(r) for r in want3]:
+                    raise Violation('wrong-rows', shown, 'after a row was added to an earlier *result*, %r on the source selected ids %r, reference %r' % (
+                        text, [r.get('id') for r in got3], [r.get('id') for r in want3]), ('result-shares-index',))
+            finally:
+                g.pop()
     if before is not None:
         d = model.diff(before, model.grid_to_model(g))
         if not d and model.raw_snapshot(g) != raw:
